@@ -508,10 +508,12 @@ def shard(i: int, n: int, tier: str, seed: int) -> Result:
                         bad = True
                         break
                     res.count('fpy_raises_only')
-                for route, gfn in back.items():
+                for route, gfn in list(back.items()):
                     r1 = genrun.call(gfn, args, timeout=8.0)
                     if r1[0] == 'timeout':
+                        # counted (wall clock is no verdict); the route is not tried on the remaining inputs of this program
                         res.count('read_back_eval_timeout')
+                        del back[route]
                         continue
                     res.evaluations += 1
                     res.nontrivial += rich
